@@ -22,8 +22,38 @@ fn values(sh: Shape, signed: bool) -> BoxedStrategy<Pat> {
     let aligned = (proptest::sample::select(dec_bases).prop_flat_map(move |b| gen::base_aligned(sh, b)), any::<bool>()).prop_map(move |(p, neg)| {
         if neg && signed { wrap(Z::from_le_unsigned(&p.0).mod_2k(w - 1).neg()) } else { p }
     });
+    // decimal numerals made of runs of one digit and of a repeated block (repdigits, periodic numerals)
+    let numeral_structured = (proptest::collection::vec((0u8..10, 1usize..40, proptest::collection::vec(0u8..10, 1..11), 0u8..4), 1..6), any::<bool>(), any::<bool>()).prop_map(move |(parts, lead, neg)| {
+        let cap = (w as f64 * 0.30103) as usize + 1;
+        let mut digits: Vec<u8> = Vec::new();
+        if lead {
+            digits.push(1);
+        }
+        for (d, len, block, mode) in parts {
+            match mode {
+                0 | 1 => digits.extend(std::iter::repeat(d).take(len * 2)),
+                2 => {
+                    for _ in 0..len {
+                        digits.extend(block.iter());
+                    }
+                }
+                _ => digits.extend(block.iter()),
+            }
+            if digits.len() >= cap {
+                break;
+            }
+        }
+        let maxbits = if signed { w - 1 } else { w };
+        let mut z = Z::from_radix_be(&digits, 10);
+        while z.bit_len() > maxbits && !digits.is_empty() {
+            digits.remove(0);
+            z = Z::from_radix_be(&digits, 10);
+        }
+        wrap(if neg && signed { z.neg() } else { z })
+    });
     prop_oneof![
         3 => gen::pattern(sh),
+        3 => numeral_structured,
         // binary-aligned small multiples of the powers of ten that fit a digit (short-division boundary of the decimal conversion)
         3 => aligned,
         // interior zero digits / digits with leading zero nibbles (skipped or mis-padded interior digits)
